@@ -289,3 +289,94 @@ def admonition(ctx):
         else:
             ctx.inconclusive.append("vacuity: pre-processor never completed")
     ctx.sample({"paths": E.paths})
+
+
+# ---------------------------------------------------------------------------------------
+# O3: leading metadata lines set the entity's metadata and are not shown; everything else is body, in order
+# ---------------------------------------------------------------------------------------
+META_LINES = [(" author: Jane Doe", ("author", "Jane Doe")), (" Author: Jane Doe", ("author", "Jane Doe")), (" version: 1.2", ("version", "1.2")),
+              (" deprecated: true", ("deprecated", True)), (" graph: false", ("graph", False)), (" display: private", ("display", ["private"])),
+              (" summary: short text", ("summary", "short text"))]
+BODY_LINES = [" First paragraph words", " note: this is not a key", " http://example.org: a link", " second line", " - item: one"]
+
+
+def _meta_prog(lines):
+    return ["module m", "integer :: x"] + ["!!" + l for l in lines] + ["end module m"]
+
+
+def _meta_observe(f):
+    v = f.modules[0].variables[0]
+    return v.meta, list(v.doc_list)
+
+
+def replay_meta(w):
+    f = parserh.parse_concrete(_meta_prog(w["lines"]))
+    meta, body = _meta_observe(f)
+    got_meta = {k: getattr(meta, k) for k, _ in w["expected_meta"]}
+    want_meta = {k: v for k, v in w["expected_meta"]}
+    bad = got_meta != want_meta or [b for b in body if b.strip()] != [b for b in w["expected_body"] if b.strip()]
+    return bad, {"doc_lines": w["lines"], "ford_meta": got_meta, "ford_body": body, "expected_meta": want_meta, "expected_body": w["expected_body"]}
+
+
+@obligation("C03", "O3.metadata-split", engine="SX(CV)", timeout=1800)
+def metadata(ctx):
+    """doc comment = k leading metadata lines (k = 0..2, symbolic keys/spellings) + body lines (symbolic, some looking like metadata):
+    the metadata is set on the entity, the body lines are kept verbatim and in order, nothing is both"""
+    import ford.sourceform as sf
+    import ford.utils as fu
+    import ford.settings as st
+
+    ctx.encode_fn(fu.meta_preprocessor)
+    ctx.encode_fn(sf.FortranBase.read_metadata)
+    ctx.encode_re("META_RE", fu.META_RE)
+    ctx.bounds.update({"metadata_lines": "0..2 of " + str(len(META_LINES)), "body_lines": "1..2 of " + str(len(BODY_LINES))})
+    done = 0
+    for nmeta in (0, 1, 2):
+        for nbody in (1, 2):
+            def h(E, nmeta=nmeta, nbody=nbody):
+                ms = [CV.choice(E, f"m{i}", META_LINES) for i in range(nmeta)]
+                bs = [CV.choice(E, f"b{i}", BODY_LINES) for i in range(nbody)]
+                if nmeta == 2:
+                    E.assume(choice.apply(lambda a, b: a[0] != b[0], ms[0][1], ms[1][1]))
+                if nmeta == 0:
+                    # documented: a leading line that LOOKS like `key: value` is taken as metadata (user guide, "Metadata")
+                    E.assume(choice.apply(lambda b: _re.match(r"^[ ]{0,3}[A-Za-z0-9_-]+:", b) is None, bs[0]))
+                # with metadata present the body is separated by an empty doc line (documented form); without, the first
+                # body line must not itself look like `known_key: value`
+                lines = [m_[0] for m_ in ms] + ([""] if nmeta else []) + list(bs)
+                E.e.snapshot = lambda m: {"lines": [choice.value_in_model(m, x) for x in lines],
+                                          "expected_meta": [list(choice.value_in_model(m, x[1])) for x in ms],
+                                          "expected_body": [choice.value_in_model(m, x) for x in bs]}
+                f = parserh.parse(_meta_prog(lines), post=None) if False else parserh.parse(_meta_prog(lines))
+                meta, body = _meta_observe(f)
+                E.reachable("parsed")
+                for m_ in ms:
+                    got = choice.apply(lambda kv: None, m_[1])  # placeholder to keep indices alive
+                    val = choice.apply(lambda kv, mm=meta: getattr(mm, kv[0]), m_[1])
+                    E.require(choice.apply(lambda g, kv: g == kv[1], val, m_[1]), "metadata value not set on the entity")
+                bodyn = [b for b in body if not (b == "")]
+                E.require(choice.apply(lambda n: n == nbody, len(bodyn)), "number of body lines differs (metadata shown or body swallowed)")
+                for g, w_ in zip(bodyn, bs):
+                    E.require(choice.apply(lambda a, b: a == b, g, w_), "body line changed, reordered or dropped")
+
+            with patch_ctx(st):
+                E = sym.Engine(ctx, max_paths=20000, incremental=True)
+                found = E.explore(h)
+                seen = set()
+                for (label, m, pc), snap in zip(found, E.snapshots):
+                    if label in seen:
+                        continue
+                    seen.add(label)
+                    ctx.report(label, snap, replay_meta)
+                if E.reached.get("parsed"):
+                    done += 1
+    if done == 6:
+        ctx.twins += 1
+    else:
+        ctx.inconclusive.append(f"vacuity: parsed in {done}/6 shapes only")
+    ctx.sample({"meta": [m[0] for m in META_LINES[:4]], "body": BODY_LINES[:3]})
+
+
+def patch_ctx(*mods):
+    from fv import patch
+    return patch.patched(*mods)
